@@ -1746,3 +1746,7 @@ mod tests {
         assert!(matches!(node, Node::Value(_)));
     }
 }
+
+#[cfg(kani)]
+#[path = "/verif/kani/rten/onnx_loader.rs"]
+mod verif_kani;
